@@ -12,17 +12,27 @@ THEOREMS = [P + t for t in (
     'fpoly_pow', 'fcheb_eq_T', 'fcheb_cos', 'fsplit_eq', 'fleg_bonnet', 'fleg_one', 'fleg_parity',
     'basis_scalar_eq_array', 'basis_entry',
     'fitBasis_entry', 'funcFit_normal', 'funcFit_optimum', 'funcFit_zero_weight', 'funcFit_exact',
-    'eval_of_fit', 'xy_of_fit', 'default_grid')]
+    'eval_of_fit', 'xy_of_fit', 'default_grid',
+    # extension: the loop of xy2traceset with the real djs_reject inside, traces independent / permutable, FITS-record constructor
+    'rejectCall_none', 'tsetFitRej_eq', 'tsetFit_row_is_funcFit', 'tsetFit_row_local', 'tsetFit_other_traces', 'tsetFit_perm',
+    'tsXmin_reorder', 'minAll_congr', 'maxAll_congr', 'tsXminmax_reorder', 'tsetFit_perm_full', 'tsetFit_optimum', 'tsTempivar_zero', 'tsetFit_zero_weight', 'ofRec_toRec')]
 RULE = ('basis cases: function x order (0..14) x scalar/0-d/1-D abscissae in [-1,1] incl. -1, 0, -0.0, 1; '
         'fit cases: (x, y, invvar with zeros / few good points, ncoeff 1..12, function, ia/inputans, inputfunc) plus malformed shapes and names; '
         'trace-set cases: nTrace x nx position arrays (SDSS: no jump, BOSS: xjumplo/hi/val), fit then evaluate at the same positions '
-        'and on the default grid; coefficient-matrix cases through an in-memory FITS record and the two stored trace-set files. '
+        'and on the default grid; coefficient-matrix cases through an in-memory FITS record and the two stored trace-set files; '
+        'tsrej: xy2traceset with gross outliers / zero weights / masked outliers x maxiter 0,1,2,10,default, each also with the traces re-ordered, '
+        'against the model loop that contains C17\'s djs_reject; hdu: trace-set tables built with astropy (in memory and written to / read from a FITS file), '
+        'column order shuffled, extra columns, one required or jump column missing; dtype: integer (i4/i8/u2) and float32 pixel positions. '
         'A case is non-trivial when it reaches a basis row >= 2, a normal-equation solve, or an evaluation; distinct = distinct case payloads')
 TRUSTED = ['hand-written model lean/PydlVerif/Model/Trace.lean tied to the code by the I/O correspondence of this run',
            'scipy.special.legendre/chebyt + numpy.polyval (the model uses the three-term recurrences; agreement sampled to 1e-9 for orders <= 12)',
            'numpy.linalg.solve (parameter `solve` of the model, contract alpha.res = beta; driver instance: Gaussian elimination)',
-           'numpy dot/sum (order of summation not modelled; compared to tolerance)']
-ASSUMPTIONS = ['float64 arrays, 1-D x/y/invvar for func_fit and rectangular 2-D arrays of one shape for TraceSet',
+           'numpy dot/sum (order of summation not modelled; compared to tolerance)',
+           'hand-written models lean/PydlVerif/Model/TraceIter.lean (loop with djs_reject, FITS-record constructor) and Model/Reject.lean (C17) tied to the code by the tsrej / hdu streams',
+           'astropy.io.fits (the FITS record is modelled as its list of (column name, first-row value))']
+ASSUMPTIONS = ['float64 arrays, 1-D x/y/invvar for func_fit and rectangular 2-D arrays of one shape for TraceSet (integer / float32 positions: '
+               'compared with the float64 run of the same values by the dtype stream, not modelled separately)',
+               'tsetFit_perm_full: sigma permutes the trace numbers (maps [0,nTrace) into and onto itself); explicit or default xmin/xmax',
                'ia is a bool array of length ncoeff; inputans, when given, has length ncoeff',
                'theorems are over ordered fields (exact arithmetic); optimum needs invvar >= 0, exact recovery needs a positive definite normal matrix',
                'maxiter >= 0 (a negative maxiter leaves ycurfit unassigned: UnboundLocalError, modelled and compared, outside the statement)']
@@ -31,12 +41,23 @@ LEVEL_TEXT = ('Machine-checked Lean 4 theorems over an executable generic model 
               'satisfies Bonnet, P_k(1)=1 and parity, scalar = 1-element array; func_fit\'s result solves the weighted normal equations on the '
               'free coefficients, hence is the weighted-least-squares optimum among vectors with the prescribed fixed coefficients, ignores data '
               'at zero-weight points and recovers exact data; TraceSet.xy at the fitting positions returns the fitted values with or without the '
-              'x-jump; the default grid is xmin, xmin+1, ..., xmax - for all orders, lengths, masks and shapes. Model tied to the code on every run '
-              'by I/O correspondence at Float (and exact Rat runs of the fits) plus numpy.polynomial / lstsq oracles.')
+              'x-jump; the default grid is xmin, xmin+1, ..., xmax - for all orders, lengths, masks and shapes. Extension: the whole loop of '
+              'xy2traceset with the real djs_reject (C17 model) inside: the rejection step as called there never rejects and always ends the loop '
+              '(rejectCall_none), so the loop is ONE func_fit per trace (tsetFitRej_eq, tsetFit_row_is_funcFit), whose coefficients are the weighted '
+              'least-squares optimum over all points of non-zero invvar*inmask (tsetFit_optimum), untouched by values at zero-weight points '
+              '(tsetFit_zero_weight); every trace is fitted on its own (tsetFit_row_local, tsetFit_other_traces) and re-ordering the traces re-orders '
+              'the rows (tsetFit_perm_full, explicit or default xmin/xmax: min/max of xpos proved independent of the row order); a trace set stored as a FITS record and read back evaluates identically (ofRec_toRec). Model tied to the code on every run '
+              'by I/O correspondence at Float (and exact Rat runs of the fits) plus numpy.polynomial / lstsq oracles and metamorphic oracles on the real code.')
 LEVEL_NOTE = ('Trusted: Lean kernel, axioms propext/Classical.choice/Quot.sound at most, the hand-written model (validated only by the '
               'correspondence sample), scipy/numpy kernels named in TRUSTED. flegendre/fchebyshev call scipy polynomial objects; the model is '
               'the textbook recurrence and their agreement is sampled (1e-9, orders <= 12), not proved. Theorems are exact-field statements; '
-              'float rounding is outside them (fits compared to a conditioning-scaled tolerance). float32 / integer arrays are not modelled.')
+              'float rounding is outside them (fits compared to a conditioning-scaled tolerance). The code computes in the dtype of xpos when that is '
+              'floating (float32 in, float32 coefficients) and, since fix 53c4990, in float64 for integer positions; these are not modelled as '
+              'separate arithmetics: integer runs must equal the float64 run bit for bit, float32 runs (float32 or float64 values; mixed precision '
+              'raised AssertionError before fix e39e788) agree with it to 2e-4. '
+              'xy2traceset never rejects anything although its docstring speaks of rejection iterations (no lower/upper is passed to djs_reject) and '
+              'outmask is all True even at masked points: the model and the theorems state exactly that; the property is silent about outmask. '
+              'No theorem of the extension is partial.')
 
 FUNCS = ['legendre', 'chebyshev', 'chebyshev_split', 'poly']
 EPS = 2.220446049250313e-16
@@ -989,8 +1010,11 @@ def _xy_tol_ok(got, want, coeff, func, xn):
     return bool((np.abs(np.array(got) - np.array(want)) <= core.REL_TOL * sc).all())
 
 
-def _xy(ctx, cases, oracle_only=False, tsets=None):
-    model = [None] * len(cases) if oracle_only else core.driver_parallel([_line_xy(c) for c in cases], chunk=200)
+def _xy(ctx, cases, oracle_only=False, tsets=None, models=None):
+    if models is not None:
+        model = models          # answers of another model operation on the same cases (hdu stream: the record constructor)
+    else:
+        model = [None] * len(cases) if oracle_only else core.driver_parallel([_line_xy(c) for c in cases], chunk=200)
     for k, (c, m) in enumerate(zip(cases, model)):
         t = tsets[k] if tsets else None
         impl = _impl_xy(c, t)
@@ -1012,9 +1036,9 @@ def _xy(ctx, cases, oracle_only=False, tsets=None):
                         else:
                             ok = ok and same_list(a['y'][i], by[i])
                 if not ok:
-                    ctx.disagree('xy', c, impl, {'ok': {'x': bx, 'y': by}})
+                    ctx.disagree(c.get('stream', 'xy'), c, impl, {'ok': {'x': bx, 'y': by}})
             elif impl != m:
-                ctx.disagree('xy', c, impl, m)
+                ctx.disagree(c.get('stream', 'xy'), c, impl, m)
         # ---- property oracle: values are sum_k coeff_k phi_k(xnorm x); default grid
         nrow = nt if c.get('xpos') is None else c['xshape'][0]
         if c['func'] not in ('legendre', 'chebyshev', 'poly') or nrow < nt or not (c['xmax'] - c['xmin'] > 0):
@@ -1117,6 +1141,10 @@ def run(ctx):
     _xy(ctx, _gen_xy(ctx))
     _stored(ctx)
     _xnorm(ctx)
+    from harness.props import c13_ext as X
+    X.rej(ctx)
+    X.hdu(ctx)
+    X.dtype(ctx)
     if (ctx.disagreements or any(not o['ok'] for o in ctx.obligations)) and not ctx.violations:
         # directed failing-input search on the real code: more oracle-only cases around what disagreed
         ctx.notes.append('obligation or correspondence broken: oracle-only search on the real code')
@@ -1131,6 +1159,12 @@ def run(ctx):
             _tsfit(ctx, _gen_ts(ctx) + _gen_ts(ctx), oracle_only=True)
         if streams & {'xy', 'xnorm'}:
             _xy(ctx, _gen_xy(ctx) + _gen_xy(ctx), oracle_only=True)
+        if streams & {'tsrej'}:
+            X.rej(ctx, oracle_only=True)
+        if streams & {'hdu'}:
+            X.hdu(ctx, oracle_only=True)
+        if streams & {'dtype'}:
+            X.dtype(ctx, oracle_only=True)
 
 
 def _replay_case(ctx, case, oracle_only=False):
@@ -1144,7 +1178,8 @@ def _replay_case(ctx, case, oracle_only=False):
     elif s == 'xy' and case.get('src', 'fitsrec') == 'fitsrec':
         _xy(ctx, [case], oracle_only)
     else:
-        return False
+        from harness.props import c13_ext as X
+        return X.replay_case(ctx, case, oracle_only)
     return True
 
 
